@@ -1,116 +1,215 @@
-(* Main statements of C20 over Model/Session.v.
-   HelloGolang: unbounded, from the invariant [invg] (SessionP.v).
-   Mimicking ClientHelloIDs: bounded, from the exhaustive sweep (SessionBoundedP.v). *)
-From UV Require Import Base.Common Model.Session Proofs.SessionP Proofs.SessionBoundedP.
+(* The any-length theorems of C20: induction over the history on top of the finite invariant of Proofs/SessionP.v. *)
+From UV Require Import Base.Common Model.Session Proofs.SessionP.
 
+Definition ctl (s : st) : cstate * gstate := (st_c s, st_g s).
 Definition no_panic (rs : list (res unit)) : Prop := Forall (fun r => is_panic r = false) rs.
+Definition ik (i : inj) : injk := match i with InjTicket _ _ => ITicket | InjPsk _ _ => IPsk end.
 
-Lemma run_inv_golang w : w_golang w = true ->
-  forall ops l s lf, invg w l s = true -> legal_from w l ops = Some lf ->
-  no_panic (run w s ops) /\ invg w lf (final w s ops) = true.
+Lemma step_ctl w o s :
+  ctl (fst (step w o s)) = fst (cstep (cworld_of w) (kind o) (st_c s) (st_g s)) /\
+  snd (step w o s) = snd (cstep (cworld_of w) (kind o) (st_c s) (st_g s)).
 Proof.
-  intros G ops. induction ops as [|o r IH]; intros l s lf H L; simpl in *.
-  - injection L as <-. split; [constructor | exact H].
+  unfold step, cstep.
+  destruct (run_split w o (stepk (cworld_of w) (kind o)) (st_c s) (st_g s) (st_d s)) as [A B].
+  split; [|exact B]. rewrite <- A. unfold ctl, st_c, st_g.
+  destruct (runF w o (stepk (cworld_of w) (kind o)) (fst (fst s)) (snd (fst s)) (st_d s)) as [[[c g] d] r]; reflexivity.
+Qed.
+
+(* ---- the injected value and the legality bookkeeping ---- *)
+Lemma inj_of_some o i : inj_of o = Some i ->
+  arg_datum o = inj_d i /\ injecting (kind o) = true /\ inj_kind (kind o) = ik i.
+Proof.
+  destruct o as [| |[[[[] d] se]|]|[[[[] d] se]|]|[[d se]|]| |]; cbn; intros E; try discriminate E;
+    injection E as <-; auto.
+Qed.
+Lemma inj_of_none o : inj_of o = None -> injecting (kind o) = false /\ inj_kind (kind o) = INone.
+Proof.
+  destruct o as [| |[[[[] d] se]|]|[[[[] d] se]|]|[[d se]|]| |]; cbn; intros E; try discriminate E; auto.
+Qed.
+
+Lemma legal_stepk_facts cw l k l1 : legal_stepk cw l k = Some l1 ->
+  l_inj l1 = (match l_inj l with INone => inj_kind k | x => x end) /\
+  (injecting k = true -> l_set l = false /\ l_set l1 = true) /\
+  (l_set l = true -> l_set l1 = true).
+Proof.
+  destruct l as [a b c d e]. destruct cw. destruct k as [| |[]|[]| | |];
+    destruct a, b, c, d, cw_disabled; cbn;
+    intros E; try discriminate E; injection E as <-; cbn; repeat split; intros; try discriminate; auto;
+    destruct e; auto.
+Qed.
+
+Lemma linj_keep w ops : forall l lf, legal_from w l ops = Some lf -> l_inj l <> INone -> l_inj lf = l_inj l.
+Proof.
+  induction ops as [|o r IH]; intros l lf L N; cbn in L.
+  - injection L as <-. reflexivity.
   - destruct (legal_step w l o) as [l1|] eqn:E; [|discriminate].
-    pose proof (step_ok_golang o w l s l1 G H E) as [Hp Hi].
-    destruct (step w o s) as [s1 x] eqn:Es; simpl in *.
-    destruct (IH l1 s1 lf Hi L) as [A B].
-    split; [constructor; assumption | exact B].
+    destruct (legal_stepk_facts _ _ _ _ E) as [A _].
+    assert (l_inj l1 = l_inj l) as Q by (rewrite A; destruct (l_inj l); congruence).
+    rewrite <- Q. apply IH; [exact L | congruence].
 Qed.
 
-Lemma init_invg w : invg w (linit w) (init w) = true.
-Proof. destruct w; cbn. destruct w_cache0; reflexivity. Qed.
-
-Lemma legal_lf w ops : legal w ops = true -> exists lf, legal_from w (linit w) ops = Some lf.
-Proof. unfold legal. destruct (legal_from w (linit w) ops) as [lf|]; [eauto | discriminate]. Qed.
-
-(* HelloGolang: no assertion panic for legal histories of any length, any configuration, any argument bytes *)
-Theorem no_assert_golang : forall w ops, w_golang w = true -> legal w ops = true -> no_panic (run w (init w) ops).
+Lemma linj_first w ops : forall l lf, legal_from w l ops = Some lf -> l_inj l = INone ->
+  l_inj lf = match injected ops with Some i => ik i | None => INone end.
 Proof.
-  intros w ops G L. destruct (legal_lf w ops L) as [lf E].
-  exact (proj1 (run_inv_golang w G ops _ _ lf (init_invg w) E)).
+  induction ops as [|o r IH]; intros l lf L N; cbn in L |- *.
+  - injection L as <-. exact N.
+  - destruct (legal_step w l o) as [l1|] eqn:E; [|discriminate].
+    destruct (legal_stepk_facts _ _ _ _ E) as [A _]. rewrite N in A.
+    destruct (inj_of o) as [i|] eqn:J.
+    + destruct (inj_of_some o i J) as [_ [_ K]]. rewrite K in A.
+      rewrite (linj_keep w r l1 lf L) by (rewrite A; destruct i; discriminate). exact A.
+    + destruct (inj_of_none o J) as [_ K]. rewrite K in A. exact (IH l1 lf L A).
 Qed.
 
-(* ... and its key share always has its private key once the hello exists *)
-Theorem keys_golang : forall w ops, w_golang w = true -> legal w ops = true ->
+(* ---- induction over the history ---- *)
+Lemma run_all w : world_ok w = true -> forall i ops l s lf,
+  inR (cworld_of w) (l, ctl s) -> Dinv i (st_g s) (st_d s) ->
+  (l_set l = false -> forall i', injected ops = Some i' -> i' = i) ->
+  legal_from w l ops = Some lf ->
+  no_panic (run w s ops) /\ inR (cworld_of w) (lf, ctl (final w s ops)) /\
+  Dinv i (st_g (final w s ops)) (st_d (final w s ops)).
+Proof.
+  intros W i ops. induction ops as [|o r IH]; intros l s lf I D J L; cbn in L |- *.
+  - injection L as <-. repeat split; [constructor | exact I | exact D].
+  - destruct (legal_step w l o) as [l1|] eqn:E; [|discriminate].
+    destruct (legal_stepk_facts _ _ _ _ E) as [_ [F1 F2]].
+    destruct (inR_step (cworld_of w) l (st_c s) (st_g s) (kind o) l1 W I E) as [P R].
+    destruct (step_ctl w o s) as [C S].
+    assert (HA : injecting (kind o) = true -> arg_datum o = inj_d i).
+    { intros Q. destruct (inj_of o) as [i'|] eqn:K.
+      - destruct (inj_of_some o i' K) as [A _]. rewrite A. f_equal. symmetry.
+        apply J; [exact (proj1 (F1 Q)) | cbn; rewrite K; reflexivity].
+      - destruct (inj_of_none o K) as [B _]. congruence. }
+    assert (D1 : Dinv i (st_g (fst (step w o s))) (st_d (fst (step w o s)))).
+    { unfold step. apply Dinv_run; assumption. }
+    assert (J1 : l_set l1 = false -> forall i', injected r = Some i' -> i' = i).
+    { intros Q i' K. destruct (inj_of o) as [i0|] eqn:K0.
+      - destruct (inj_of_some o i0 K0) as [_ [B _]]. destruct (F1 B) as [_ T]. congruence.
+      - apply J; [destruct (l_set l) eqn:T; [rewrite (F2 eq_refl) in Q; discriminate | reflexivity]
+                 | cbn; rewrite K0; exact K]. }
+    destruct (step w o s) as [s1 x] eqn:Es. cbn in *.
+    rewrite <- C in R.
+    destruct (IH l1 s1 lf R D1 J1 L) as [A [B1 B2]].
+    repeat split; [constructor; [rewrite S; exact P | exact A] | exact B1 | exact B2].
+Qed.
+
+Lemma Dinv_init i : Dinv i ginit dinit.
+Proof. unfold Dinv, ginit; cbn. repeat split; intros E; discriminate E. Qed.
+
+Lemma legal_lf w ops : legal w ops = true -> exists lf, legal_from w (linit (w_cache0 w)) ops = Some lf.
+Proof. unfold legal. destruct (legal_from w (linit (w_cache0 w)) ops) as [lf|]; [eauto | discriminate]. Qed.
+
+Lemma from_init w ops lf i : world_ok w = true -> legal_from w (linit (w_cache0 w)) ops = Some lf ->
+  (forall i', injected ops = Some i' -> i' = i) ->
+  no_panic (run w (init w) ops) /\ inR (cworld_of w) (lf, ctl (final w (init w) ops)) /\
+  Dinv i (st_g (final w (init w) ops)) (st_d (final w (init w) ops)).
+Proof.
+  intros W L J. apply (run_all w W i ops (linit (w_cache0 w)) (init w) lf); auto.
+  - exact (inR_init (cworld_of w) W).
+  - apply Dinv_init.
+Qed.
+
+(* ---- the theorems ---- *)
+Theorem no_assert : forall w ops, world_ok w = true -> legal w ops = true -> no_panic (run w (init w) ops).
+Proof.
+  intros w ops W L. destruct (legal_lf w ops L) as [lf E].
+  destruct (injected ops) as [i|] eqn:J.
+  - apply (from_init w ops lf i W E). intros i' Q. rewrite J in Q. congruence.
+  - apply (from_init w ops lf (InjTicket [] 0) W E). intros i' Q. rewrite J in Q. discriminate.
+Qed.
+
+Lemma final_node w ops lf : world_ok w = true -> legal_from w (linit (w_cache0 w)) ops = Some lf ->
+  node_ok (cworld_of w) (reach (cworld_of w)) (lf, ctl (final w (init w) ops)) = true.
+Proof.
+  intros W E. apply (inR_node_ok _ _ W).
+  destruct (injected ops) as [i|] eqn:J.
+  - apply (from_init w ops lf i W E). intros i' Q. rewrite J in Q. congruence.
+  - apply (from_init w ops lf (InjTicket [] 0) W E). intros i' Q. rewrite J in Q. discriminate.
+Qed.
+
+Ltac split_conj := repeat match goal with H : _ && _ = true |- _ => apply andb_prop in H; destruct H end.
+
+Theorem keys_survive : forall w ops, world_ok w = true -> w_golang w = false -> legal w ops = true ->
+  let c := st_c (final w (init w) ops) in
+  (status c = ByUtls -> applied c = true) /\
+  (applied c = true -> w_tls13 w = true -> share_some c = true /\ keys_some c = true /\ keys_match c = true).
+Proof.
+  intros w ops W G L c. destruct (legal_lf w ops L) as [lf E].
+  pose proof (final_node w ops lf W E) as N. unfold node_ok in N. cbv beta iota delta [fst snd ctl] in N.
+  split_conj. fold c in *.
+  match goal with K : keys_p _ _ = true |- _ => unfold keys_p in K; cbn in K; rewrite G in K end.
+  split_conj. split.
+  - intros St. match goal with K : implb (bstatus_eqb (status c) ByUtls) _ = true |- _ => rewrite St in K; exact K end.
+  - intros A T. match goal with K : implb (applied c && _) _ = true |- _ => rewrite A, T in K; cbn in K end.
+    split_conj. auto.
+Qed.
+
+Theorem keys_golang : forall w ops, world_ok w = true -> w_golang w = true -> legal w ops = true ->
+  let c := st_c (final w (init w) ops) in
+  status c = ByGo -> share_some c = true /\ keys_some c = true /\ keys_match c = true.
+Proof.
+  intros w ops W G L c St. destruct (legal_lf w ops L) as [lf E].
+  pose proof (final_node w ops lf W E) as N. unfold node_ok in N. cbv beta iota delta [fst snd ctl] in N.
+  split_conj. fold c in *.
+  match goal with K : keys_p _ _ = true |- _ => unfold keys_p in K; cbn in K; rewrite G, St in K; cbn in K end.
+  split_conj. auto.
+Qed.
+
+Lemma is_inj_eq x : is_inj x = true -> x = GInj.
+Proof. destruct x; [reflexivity | discriminate]. Qed.
+
+Lemma final_wire w ops lf i : world_ok w = true -> w_golang w = false ->
+  legal_from w (linit (w_cache0 w)) ops = Some lf -> injected ops = Some i ->
+  status (st_c (final w (init w) ops)) = ByUtls ->
+  wire_p (cworld_of w) lf (st_c (final w (init w) ops)) (st_g (final w (init w) ops)) = true /\
+  l_inj lf = ik i /\ Dinv i (st_g (final w (init w) ops)) (st_d (final w (init w) ops)).
+Proof.
+  intros W G E J St.
+  pose proof (final_node w ops lf W E) as N. unfold node_ok in N. cbv beta iota delta [fst snd ctl] in N.
+  split_conj. split; [assumption|]. split.
+  - rewrite (linj_first w ops _ lf E eq_refl), J. reflexivity.
+  - apply (from_init w ops lf i W E). intros i' Q. rewrite J in Q. congruence.
+Qed.
+
+Theorem wire_ticket : forall w ops tk se, world_ok w = true -> w_golang w = false -> legal w ops = true ->
+  injected ops = Some (InjTicket tk se) ->
   let s := final w (init w) ops in
-  status s = ByGo -> exists g, keys s = Some g /\ share s = Some g.
+  status (st_c s) = ByUtls ->
+  hs_sess (st_d s) = se /\ hs_ticket (st_d s) = tk /\ exists p, raw (st_d s) = Some ([tk], p).
 Proof.
-  intros w ops G L s St. destruct (legal_lf w ops L) as [lf E].
-  pose proof (proj2 (run_inv_golang w G ops _ _ lf (init_invg w) E)) as H. fold s in H.
-  unfold invg in H.
-  repeat match goal with H : _ && _ = true |- _ => apply andb_prop in H; destruct H end.
-  match goal with H : match status s with _ => _ end = true |- _ => rewrite St in H; cbn in H end.
-  repeat match goal with H : _ && _ = true |- _ => apply andb_prop in H; destruct H end.
-  match goal with K : optN_eqb _ _ = true, S : is_some _ = true |- _ => revert K S end.
-  destruct (share s) as [g|], (keys s) as [k|]; cbn; intros K S; try discriminate.
-  apply N.eqb_eq in K. subst. eauto.
+  intros w ops tk se W G L J s St. destruct (legal_lf w ops L) as [lf E].
+  destruct (final_wire w ops lf _ W G E J St) as [Wp [Li D]]. fold s in Wp, D.
+  unfold wire_p in Wp. cbn in Wp. rewrite G, St, Li in Wp. cbn in Wp. split_conj.
+  destruct D as (_ & _ & _ & _ & D5 & D6 & _ & D8 & _).
+  repeat match goal with H : is_inj _ = true |- _ => apply is_inj_eq in H end.
+  repeat split; [exact (D5 ltac:(assumption)) | exact (D6 ltac:(assumption)) | exact (D8 ltac:(assumption))].
 Qed.
 
-(* ---- bounded statements for every world of predefined-parrot shape ---- *)
-Section Bounded.
-  Variable w : world.
-  Variable ops : list op.
-  Hypothesis Hw : In w worlds.
-  Hypothesis Ho : In ops (lists_upto 4).
+Theorem wire_psk : forall w ops lb se, world_ok w = true -> w_golang w = false -> legal w ops = true ->
+  injected ops = Some (InjPsk lb se) ->
+  let s := final w (init w) ops in
+  status (st_c s) = ByUtls ->
+  hs_sess (st_d s) = se /\ exists t, raw (st_d s) = Some (t, Some lb).
+Proof.
+  intros w ops lb se W G L J s St. destruct (legal_lf w ops L) as [lf E].
+  destruct (final_wire w ops lf _ W G E J St) as [Wp [Li D]]. fold s in Wp, D.
+  unfold wire_p in Wp. cbn in Wp. rewrite G, St, Li in Wp. cbn in Wp. split_conj.
+  destruct D as (_ & _ & _ & _ & D5 & _ & _ & _ & D9).
+  repeat match goal with H : is_inj _ = true |- _ => apply is_inj_eq in H end.
+  split; [exact (D5 ltac:(assumption)) | exact (D9 ltac:(assumption))].
+Qed.
 
-  Lemma b_parts : forall lf, legal_from w (linit w) ops = Some lf ->
-    forallb (fun r => negb (is_panic r)) (run w (init w) ops) = true /\
-    (w_golang w || keys_ok w (final w (init w) ops)) = true /\
-    (w_golang w || wire_ok ops (final w (init w) ops)) = true /\
-    (w_golang w || forallb (fun o => negb (forbidden w lf o) || rejected (snd (step w o (final w (init w) ops)))) alphabet) = true.
-  Proof.
-    intros lf E. pose proof (check_hist_all w ops Hw Ho) as C. unfold check_hist in C. rewrite E in C.
-    repeat (apply andb_prop in C; destruct C as [C ?]). auto.
-  Qed.
+(* what goes on the wire at Handshake is the marshaled hello (model-level: DWireRaw copies [raw]) *)
 
-  Theorem no_assert_b : legal w ops = true -> no_panic (run w (init w) ops).
-  Proof.
-    intros L. destruct (legal_lf w ops L) as [lf E]. destruct (b_parts lf E) as [A _].
-    unfold no_panic. rewrite Forall_forall. rewrite forallb_forall in A.
-    intros r Hr. specialize (A r Hr). destruct (is_panic r); [discriminate | reflexivity].
-  Qed.
-
-  Theorem keys_b : legal w ops = true -> w_golang w = false ->
-    let s := final w (init w) ops in
-    applied s = true -> w_tls13 w = true -> exists g, keys s = Some g /\ share s = Some g.
-  Proof.
-    intros L G s A T. destruct (legal_lf w ops L) as [lf E]. destruct (b_parts lf E) as [_ [K _]].
-    rewrite G in K. cbn in K. fold s in K. unfold keys_ok in K. rewrite A, T in K. cbn in K.
-    apply andb_prop in K. destruct K as [S K]. revert S K.
-    destruct (share s) as [g|], (keys s) as [k|]; cbn; intros S K; try discriminate.
-    apply N.eqb_eq in K. subst. eauto.
-  Qed.
-
-  Theorem wire_ticket_b : forall tk se, legal w ops = true -> w_golang w = false ->
-    injected ops = Some (InjTicket tk se) ->
-    let s := final w (init w) ops in
-    status s = ByUtls -> hs_sess s = se /\ hs_ticket s = tk /\ exists p, raw s = Some ([tk], p).
-  Proof.
-    intros tk se L G J s St. destruct (legal_lf w ops L) as [lf E]. destruct (b_parts lf E) as [_ [_ [Wi _]]].
-    rewrite G in Wi. cbn in Wi. fold s in Wi. unfold wire_ok in Wi. rewrite St, J in Wi. cbn in Wi.
-    apply andb_prop in Wi. destruct Wi as [Wi R]. apply andb_prop in Wi. destruct Wi as [A B].
-    apply N.eqb_eq in A. apply bytes_eqb_eq in B. revert R.
-    destruct (raw s) as [[[|t [|? ?]] p]|]; intros R; try discriminate.
-    apply bytes_eqb_eq in R. subst. eauto.
-  Qed.
-
-  Theorem wire_psk_b : forall lb se, legal w ops = true -> w_golang w = false ->
-    injected ops = Some (InjPsk lb se) ->
-    let s := final w (init w) ops in
-    status s = ByUtls -> hs_sess s = se /\ exists t, raw s = Some (t, Some lb).
-  Proof.
-    intros lb se L G J s St. destruct (legal_lf w ops L) as [lf E]. destruct (b_parts lf E) as [_ [_ [Wi _]]].
-    rewrite G in Wi. cbn in Wi. fold s in Wi. unfold wire_ok in Wi. rewrite St, J in Wi. cbn in Wi.
-    apply andb_prop in Wi. destruct Wi as [A R]. apply N.eqb_eq in A. revert R.
-    destruct (raw s) as [[t [d|]]|]; intros R; try discriminate.
-    apply bytes_eqb_eq in R. subst. eauto.
-  Qed.
-
-  Theorem forbidden_b : forall lf o, w_golang w = false -> legal_from w (linit w) ops = Some lf ->
-    In o alphabet -> forbidden w lf o = true -> rejected (snd (step w o (final w (init w) ops))) = true.
-  Proof.
-    intros lf o G E Io F. destruct (b_parts lf E) as [_ [_ [_ R]]].
-    rewrite G in R. rewrite Bool.orb_false_l in R. rewrite forallb_forall in R. specialize (R o Io). rewrite F in R. exact R.
-  Qed.
-End Bounded.
+Theorem forbidden_rejected : forall w ops lf o, world_ok w = true -> w_golang w = false ->
+  legal_from w (linit (w_cache0 w)) ops = Some lf -> forbidden w lf o = true ->
+  rejected (snd (step w o (final w (init w) ops))) = true.
+Proof.
+  intros w ops lf o W G E F.
+  pose proof (final_node w ops lf W E) as N. unfold node_ok in N. cbv beta iota delta [fst snd ctl] in N.
+  split_conj.
+  match goal with K : forallb _ kinds = true |- _ => rewrite forallb_forall in K; pose proof (K (kind o) (kinds_complete _)) as Q end.
+  unfold kind_ok in Q. apply andb_prop in Q. destruct Q as [_ Q].
+  unfold forbidden in F. cbn in Q. rewrite G, F in Q. cbn in Q.
+  destruct (step_ctl w o (final w (init w) ops)) as [_ S]. rewrite S. exact Q.
+Qed.
